@@ -59,6 +59,10 @@ def generate(rng, tier='quick', kind=None, mode='history', **kw):
       cfg['aperture'].update({'min_size': 1, 'max_size': rng.choice([8, 2 ** 31])})
       ops.append({'t': 0.0, 'op': 'steady', 'c': c, 'dur': 3.0, 'svc': 0.002, 'spread': True})
       return {'world': 'w_bal', 'cfg': cfg, 'ops': ops, 'mode': 'steady'}
+    if rng.random() < 0.3:
+      # members that take a long time to open (slow handshake): growth must not
+      # wait for an open that is still in flight
+      cfg.update({'open_delay': rng.choice([5.0, 12.0, 30.0]), 'open_sync': False})
     for _ in range(rng.randint(1, 3)):
       c = rng.choice([1, 2, 3, 5, 8, 12, 20])
       svc = max(rng.choice([0.05, 0.2, 0.5]), c * 70.0 / 3000)
